@@ -42,7 +42,7 @@ func (Order) StateTypeName() string { return "order" }
 
 type Ghost struct{ X int } // never registered
 
-var keys = []string{"1", "user/1", "a/b/c", "ключ", " ", "order/1"}
+var keys = []string{"1", "user/1", "a/b/c", "ключ", " ", "order/1", "a//b/c", "./1", "a/b/c/", "..", "c18.User/1"}
 
 type msgSpec struct {
 	Kind string `json:"kind"` // insert update update-old delete delete-old reset snap-start snap-end bad-value
@@ -192,6 +192,15 @@ func gen(r *rand.Rand) []msgSpec {
 			l = append(l, msgSpec{Kind: "delete-old", Ent: ent, Key: key, Val: val})
 		case x < 35:
 			l = append(l, msgSpec{Kind: "reset"})
+			// reset-and-rebuild: the first change after the reset repeats the last one before it
+			if r.IntN(2) == 0 {
+				for j := len(l) - 2; j >= 0; j-- {
+					if k := l[j].Kind; k == "insert" || k == "update" || k == "delete" {
+						l = append(l, l[j])
+						break
+					}
+				}
+			}
 		case x < 37:
 			l = append(l, msgSpec{Kind: "snap-start"})
 		case x < 38:
